@@ -33,6 +33,10 @@
           share a nonce as long as the session has sent fewer than 2^63 datagrams (repaired defect D9).
   NOT covered: two *different* sessions that reuse one connect token (same keys, both counters from 0) — outside
           the scope "one connection attempt and the session that follows" of C17; it is the known finding K1 of C04.
+          The session theorems are per slot: that two simultaneously living sessions have different send keys rests on
+          tokens carrying independently drawn keys (and on the server refusing a second connection of one client id),
+          which is not a statement about this code.  Handshake replies need no such proviso: their sequence numbers
+          are unique server-wide, whatever the key.
 -/
 import RenetVerif.Lemmas.NcAead
 namespace RenetVerif.C17
@@ -384,9 +388,11 @@ example : PacketType.fromU8 ((0x84 : UInt8).toNat % 16) = .ok .keepAlive ∧
     ((0x84 : UInt8) :: List.replicate 18 0).length < 1 + (0x84 : UInt8).toNat / 16 + 16 := by decide
 -- tokens: the private part of the example token opens on the server side, and a server acts on the request
 example : (match exToken with
-    | .ok t => (PrivateConnectToken.decode AEAD.toy t.privateData 77 t.expireTimestamp t.xnonce connectKey).isPanic = false ∧
-               t.privateData.length = 1024
-    | _ => False) := by decide +kernel
+    | .ok t =>
+      match PrivateConnectToken.decode AEAD.toy t.privateData 77 t.expireTimestamp t.xnonce connectKey with
+      | .ok pt => decide (pt.clientId = 5 ∧ pt.serverToClientKey = s2c ∧ t.privateData.length = 1024)
+      | _ => false
+    | _ => false) = true := by decide +kernel
 example : (ChallengeToken.decode AEAD.toy exChallengeData 1 chKey) = .ok ⟨5, userData⟩ := by decide +kernel
 example : exServerSess = [0, 1, 2, 3] := by decide +kernel
 end Examples
